@@ -330,6 +330,98 @@ def coq_find_case(case, out):
     return "check_find %s %s [%s]" % (nested_q(case["x"]), qlit(case["pad"]), "; ".join(obs))
 
 
+def cell_orders(ncell, pattern, d, k0):
+    """sequence of cell numbers (0 .. ncell-1) along one axis"""
+    if pattern == "gap":           # cells k and k+d, then every cell strictly in between (alternating from both ends)
+        k = min(k0, ncell - 1 - d)
+        inner = list(range(k + 1, k + d))
+        order = []
+        while inner:
+            order.append(inner.pop(len(inner) // 2))
+        return [k, k + d] + order
+    if pattern == "leapfrog":      # 0, 6, 3, 9, 5, 8, 1, ...
+        base = [0, 6, 3, 9, 5, 8, 1, 7, 4, 2]
+        return [c for c in base if c < ncell]
+    if pattern == "outside-in":
+        out, lo, hi = [], 0, ncell - 1
+        while lo <= hi:
+            out.append(lo)
+            if hi != lo:
+                out.append(hi)
+            lo, hi = lo + 1, hi - 1
+        return out
+    if pattern == "inside-out":
+        mid, out = ncell // 2, []
+        for r in range(ncell):
+            for c in ((mid + r), (mid - r)) if r else (mid,):
+                if 0 <= c < ncell and c not in out:
+                    out.append(c)
+        return out
+    raise ValueError(pattern)
+
+
+def gen_gap_case(rng, cid, dim, varied, pattern, d, idx):
+    """a history that visits cells of a long axis (>= 10 cells) in a non-monotone order with gaps, for the axes in `varied`
+    (the other coordinates are held fixed); scheduled by run(), not drawn"""
+    axes, ncells = [], []
+    for a in range(dim):
+        lo = dyadic(rng, -4, 4, 2)
+        if a in varied:
+            delta, n = rng.choice([0.25, 0.5, 0.375]), 10 + (idx + a) % 3
+            hi = lo + delta * n + delta / 4
+        else:
+            delta, n = 0.5, 1 + (idx + a) % 2
+            hi = lo + delta * n + 0.125
+        axes.append((lo, hi, delta, "gap-history"))
+        ncells.append(n)
+    nodes = [guess_axis(lo, hi, dl) for lo, hi, dl, _ in axes]
+    maxlen = {1: 12, 2: 8, 3: 5}[dim]
+    orders = {a: cell_orders(len(nodes[a]) - 3, pattern, d, (idx * 2) % 3)[:maxlen] for a in varied}
+    npts = min(len(o) for o in orders.values())
+    fixed = [dyadic(rng, axes[a][0], axes[a][1], 6) for a in range(dim)]
+    pts = []
+    for t in range(npts):
+        p = []
+        for a in range(dim):
+            if a in varied:
+                c = orders[a][t]
+                p.append(float(nodes[a][c + 1] + (nodes[a][c + 2] - nodes[a][c + 1]) * rng.choice([0.25, 0.5, 0.75])))
+            else:
+                p.append(fixed[a])
+        pts.append(p)
+    fbcls = FB_CLASSES[(idx * 5 + dim) % len(FB_CLASSES)]
+    degcls = ["quad", "cubic", "affine"][idx % 3]
+    area = []
+    for lo, hi, _, _ in axes:
+        area += [lo, hi]
+    case = {"id": cid, "dim": dim, "area": area, "res": [dl for _, _, dl, _ in axes], "fb": gen_fb(rng, fbcls, 1.0), "fbcls": fbcls,
+            "nbe": bool(idx % 2), "fn": {"kind": "poly", "coeffs": gen_poly(rng, dim, degcls)}, "degcls": degcls, "exact": True,
+            "pts": pts, "pcls": ["%s%s:%s" % (pattern, d if pattern == "gap" else "", "".join("xyz"[a] for a in varied))] * len(pts),
+            "node_picks": [[rng.random() for _ in range(dim)]], "rescls": ["gap-history"] * dim, "scalecls": "unit",
+            "gap_history": {"pattern": pattern, "d": d, "axes": ["xyz"[a] for a in varied],
+                            "cells": {"xyz"[a]: orders[a][:npts] for a in varied}}}
+    return case
+
+
+def gap_schedule(seed, quick):
+    """(dim, varied axes, pattern, d) of the scheduled gap histories of one run: per dimension and per axis one leap-frog
+    order and one of {gap d (d = 2..7), outside-in, inside-out} (rotating with the seed), plus one pair of axes"""
+    rot = ["gap", "outside-in", "gap", "inside-out", "gap", "gap"]
+    out, n = [], 0
+    reps = 1 if quick else 12
+    for rep in range(reps):
+        for dim in (1, 2, 3):
+            for a in range(dim):
+                out.append((dim, [a], "leapfrog", 6))
+                r = seed + rep + n
+                out.append((dim, [a], rot[r % len(rot)], 2 + r % 6))
+                n += 1
+            if dim >= 2:
+                pair = [(0, 1), (0, 2), (1, 2)][(seed + rep) % (1 if dim == 2 else 3)]
+                out.append((dim, list(pair), "leapfrog" if (seed + rep) % 2 == 0 else "gap", 2 + (seed + rep + 4) % 6))
+    return out
+
+
 def gen_badform_case(rng, cid, dim):
     """argument forms the unchanged code rejects: the rejection is the expected outcome"""
     c = gen_case(rng, cid, dim, True, True)
@@ -779,12 +871,15 @@ def run(ctx):
                 cases.append(c)
     n_corpus = len(cases)
     # ---- generated cases --------------------------------------------------------------------------
-    n_hist = {1: 48, 2: 18, 3: 7} if quick else {1: 1200, 2: 600, 3: 160}
+    n_hist = {1: 44, 2: 15, 3: 5} if quick else {1: 1200, 2: 600, 3: 160}
     n_ctor = 18 if quick else 200
     n_smooth = {1: 20, 2: 14, 3: 8} if quick else {1: 400, 2: 300, 3: 100}
     for dim in (1, 2, 3):
         for i in range(n_hist[dim]):
             cases.append(gen_case(rng, len(cases), dim, quick, exact=(i % 4 != 3)))
+    # scheduled gap / leap-frog / outside-in / inside-out histories on long axes, each axis in turn and pairs of axes
+    for gi, (gdim, varied, pattern, gd) in enumerate(gap_schedule(ctx.seed, quick)):
+        cases.append(gen_gap_case(rng, len(cases), gdim, varied, pattern, gd, gi + ctx.seed))
     for i in range(n_ctor):
         cases.append(gen_ctor_case(rng, len(cases), 1 + i % 3))
     for i in range(8 if quick else 200):
@@ -978,7 +1073,9 @@ def run(ctx):
         dist["history_length"]["max"] = L if dist["history_length"]["max"] is None else max(L, dist["history_length"]["max"])
     dist.update({"evaluations_raising": err_steps, "evaluations_filling_a_cell": new_cell_steps,
                  "evaluations_on_cached_cell_or_direct": cached_cell_steps, "constructor_cases": n_ctor,
-                 "corpus_cases": n_corpus, "find_index_with_padding_cases": sum(1 for c in cases if c.get("kind") == "find"),
+                 "corpus_cases": n_corpus,
+                 "gap_histories(scheduled)": [c["gap_history"] for c in cases if c.get("gap_history")][:40],
+                 "find_index_with_padding_cases": sum(1 for c in cases if c.get("kind") == "find"),
                  "rejected_argument_form_cases": sum(1 for c in cases if c.get("expect_ctor")),
                  "far_origin_cases(search only, known finding)": sum(1 for c in cases if c.get("far_origin")),
                  "far_origin_accuracy_failures": n_far_fail,
